@@ -1,9 +1,9 @@
 mod construct;
-#[cfg(feature = "has-alloc")]
+#[cfg(feature = "with-co")]
 mod costream;
-#[cfg(not(feature = "has-alloc"))]
+#[cfg(not(feature = "with-co"))]
 mod costream {
-    //! no concurrent streams without an allocator
+    //! the concurrent-stream engine lives in the `with-co` binary
     #[derive(Default)]
     pub struct CoLog {}
 }
@@ -41,29 +41,33 @@ fn arg(args: &[String], name: &str) -> Option<String> {
 }
 
 fn engine_for(prop: &str, tier: Tier) -> Option<(Arc<dyn Engine>, &'static str, u64, usize, &'static str)> {
+    // the concurrent-stream binary: C13-C15 and the co share of C02 / C03
+    #[cfg(feature = "with-co")]
+    {
+        if let Some(p) = props::co_prop(prop) {
+            let e = costream::CoEngine { prop: p.id, profile: (p.profile)(tier) };
+            return Some((Arc::new(e), p.rule, (p.cases)(tier), (p.max_len)(tier), p.id));
+        }
+        if prop == "C02" || prop == "C03" {
+            let p = props::comb_prop(prop).unwrap();
+            let profile = if p.id == "C02" { props::cp02(tier) } else { props::cp03(tier) };
+            let e = costream::CoEngine { prop: p.id, profile };
+            return Some((Arc::new(e), p.rule, (p.cases)(tier) / 6, 420, p.id));
+        }
+        return None;
+    }
+    #[cfg(not(feature = "with-co"))]
     if let Some(p) = props::comb_prop(prop) {
         let e = engine_comb::CombEngine::new(p, tier);
-        // C02 and C03 quantify over the concurrent-stream drivers as well
-        #[cfg(feature = "has-alloc")]
-        if p.id == "C02" || p.id == "C03" {
-            let profile = if p.id == "C02" { props::cp02(tier) } else { props::cp03(tier) };
-            let co = costream::CoEngine { prop: p.id, profile };
-            let m = driver::MultiEngine { parts: vec![(84, Arc::new(e)), (16, Arc::new(co))], name: "comb+co" };
-            return Some((Arc::new(m), p.rule, (p.cases)(tier), (p.max_len)(tier), p.id));
-        }
         return Some((Arc::new(e), p.rule, (p.cases)(tier), (p.max_len)(tier), p.id));
     }
-    #[cfg(feature = "has-alloc")]
-    if let Some(p) = props::co_prop(prop) {
-        let e = costream::CoEngine { prop: p.id, profile: (p.profile)(tier) };
-        return Some((Arc::new(e), p.rule, (p.cases)(tier), (p.max_len)(tier), p.id));
-    }
-    #[cfg(feature = "has-alloc")]
+    #[cfg(all(feature = "has-alloc", not(feature = "with-co")))]
     if let Some(p) = props::group_prop(prop) {
         let e = groups::GroupEngine { gp: (p.profile)(tier), fold_shared: true };
         return Some((Arc::new(e), p.rule, (p.cases)(tier), (p.max_len)(tier), p.id));
     }
-    None
+    #[cfg(not(feature = "with-co"))]
+    return None;
 }
 
 fn silent_panics() {
